@@ -7,7 +7,7 @@ out=/tmp/regress; rm -rf $out; mkdir -p $out
 ls -d /verif/seeded/${pat}* | while read d; do
   n=$(basename $d); cp -r $d $out/$n; rm -f $out/$n/eval.json
 done
-ls -d $out/seed-* | xargs -P 2 -I{} sh -c 'python3 /verif/tools/seedeval.py {} > {}/eval.out 2>&1; python3 - {} <<P
+ls -d $out/seed-* | xargs -P 2 -I{} sh -c 'B=$(python3 -c "import json,sys; print(json.load(open(sys.argv[1]+'/meta.json')).get('base','HEAD'))" {}); python3 /verif/tools/seedeval.py {} --base $B > {}/eval.out 2>&1; python3 - {} <<P
 import json,sys
 try:
     e=json.load(open(sys.argv[1]+"/eval.json"))
